@@ -417,6 +417,24 @@ class Check:
                 rogue = [a for a in axioms if not allowed.search(a)]
                 self.obligation("Print Assumptions: %d theorem(s), axioms=%s" % (len(ass), axioms or "none"),
                                 not rogue and len(ass) >= 1, "unexpected axioms: %s" % rogue if rogue else "")
+        if ok and self.tier == "thorough" and "coqchk" not in self.extra and not os.environ.get("HYVERIF_NO_COQCHK"):
+            # independent re-check of the compiled property file and everything it depends on
+            module = "HyV." + props_file[:-2].replace("/", ".")
+            with BuildLock():
+                p = subprocess.run(["timeout", "1500", "coqchk", "-silent", "-o", "-Q", ".", "HyV", module],
+                                   cwd=COQ, capture_output=True, text=True)
+            out = p.stdout + p.stderr
+            flat = re.sub(r"\s+", " ", out)
+            m = re.search(r"\* Axioms: (.*?) \* Constants/Inductives relying on type-in-type: (.*?) \* Constants/Inductives "
+                          r"relying on unsafe \(co\)fixpoints: (.*?) \* Inductives whose positivity is assumed: (.*?)\s*$", flat)
+            okc = p.returncode == 0 and m is not None and all(m.group(i).strip() == "<none>" for i in (2, 3, 4))
+            if okc and m.group(1).strip() != "<none>":
+                allowed = re.compile(r"(functional_extensionality|classic|proof_irrelevance|JMeq_eq|eq_rect_eq|"
+                                     r"PrimFloat|Uint63|PrimInt63|FloatOps|Float|constructive_)")
+                okc = all(allowed.search(x) for x in m.group(1).split() if "." in x)
+            self.obligation("coqchk -o %s (independent checker; no type-in-type, unsafe fixpoints or assumed positivity; "
+                            "axioms: %s)" % (module, m.group(1).strip()[:200] if m else "?"), okc, out[-1500:] if not okc else "")
+            self.extra["coqchk"] = out[-700:]
         hits = audit()
         self.obligation("audit: no Admitted/admit/Axiom/Parameter/Conjecture/unchecked flags in coq/", not hits,
                         "; ".join(hits[:10]))
